@@ -922,12 +922,11 @@ impl BRC20ProgEngine {
         block_hash: B256,
         is_full: bool,
     ) -> Result<Option<BlockResponseED>, Box<dyn Error>> {
-        self.db.read_fn(|db| {
-            db.get_block_number(block_hash)?
-                .map_or(Ok(None), |block_number| {
-                    self.get_block_by_number(block_number.into(), is_full)
-                })
-        })
+        // Do not hold the database lock while calling get_block_by_number, which takes it again
+        let Some(block_number) = self.db.read().get_block_number(block_hash)? else {
+            return Ok(None);
+        };
+        self.get_block_by_number(block_number.into(), is_full)
     }
 
     pub fn get_contract_bytecode(
